@@ -95,6 +95,9 @@ func main() {
 				if len(ops) > 0 && (strings.HasPrefix(ops[0], "do ") || strings.HasPrefix(ops[0], "asm ") || strings.HasPrefix(ops[0], "srv ") || strings.HasPrefix(ops[0], "conc ")) {
 					workers = 24
 				}
+				if prop == "C14" {
+					workers = 2 // every operation runs up to 8 spinning goroutines of its own
+				}
 				var pw sync.WaitGroup
 				next := make(chan int, 1024)
 				for k := 0; k < workers; k++ {
